@@ -202,7 +202,7 @@ Section Rewrite.
   Definition by_namespace (ns : string) (cands : list cand) : list cand :=
     if String.eqb ns totally_not_a_namespace then [] else
     match filter (fun c => String.eqb (org_effective_ns c) ns) cands with
-    | _ :: _ as l => l
+    | (_ :: _) as l => l
     | [] => filter (fun c => String.eqb (effective_ns (c_cur c)) ns) cands
     end.
 
